@@ -14,7 +14,7 @@ FEATURES = ('bytes', 'bools', 'strings', 'arrays', 'globals', 'overloads',
 
 def swarm_cfg(rnd, W=None, **over):
     cfg = {f: rnd.random() < 0.7 for f in FEATURES}
-    cfg['W'] = W if W is not None else rnd.choice((2, 2, 2, 3, 4, 8))
+    cfg['W'] = W if W is not None else rnd.choice((2, 2, 2, 2, 3, 3, 4, 4, 8, 8, 5, 6, 7))
     cfg['n_funcs'] = rnd.randrange(0, 5)
     cfg['n_stmts'] = rnd.randrange(4, 14)
     cfg['depth'] = rnd.randrange(1, 4)
@@ -160,9 +160,13 @@ class ProgGen:
             opts.append('bytevar')
         if d > 0:
             opts += ['arith'] * 4 + ['neg', 'idx', 'len', 'cast']
+            if self.feat('bytes'):
+                opts.append('bytexpr')
             if self.feat('calls') and any(s[2] in ('int', 'byte') for s in self.sigs):
                 opts += ['call'] * 2
         c = r.choice(opts)
+        if c == 'bytexpr':
+            return self.gen_byte(d - 1)          # implicit byte -> int
         if c == 'lit':
             return self.int_lit()
         if c == 'var':
@@ -174,6 +178,9 @@ class ProgGen:
             left = self.gen_int(d - 1)
             if op in ('/', '%'):
                 right = self.gen_divisor(d - 1)
+            elif self.feat('strings') and self.feat('bytes') and self.chance(0.1):
+                lit = self.str_lit(minlen=1)     # computed left operand, string-literal element on the right
+                right = ('idx', lit, ('int', r.randrange(len(lit[1]))))
             else:
                 right = self.gen_int(d - 1)
             e = ('bin', op, left, right)
@@ -350,6 +357,13 @@ class ProgGen:
     def gen_index(self, length, src, d):
         """An in-range index for a source of known, non-zero length."""
         r = self.rnd
+        if length and length <= 256 and self.feat('bytes') and self.chance(0.12):
+            # a byte-typed index obtained by narrowing a wide run-time value:
+            # (v * 256 + k) is byte == k whatever v holds
+            ints = self.vars_of(lambda v: v.t == 'int' and v.init and v.cval is None)
+            if ints:
+                k = r.randrange(length)
+                return ('is', ('bin', '+', ('bin', '*', ('var', r.choice(ints)[0]), ('int', 256)), ('int', k)), 'byte')
         if length and self.chance(0.5):
             return ('int', r.randrange(length))
         if length and self.chance(0.5):
@@ -588,8 +602,33 @@ class ProgGen:
                  ('aug', '+', ('var', i), ('int', 1)),
                  ('block', (('set', ('idx', ('var', n), ('var', i)), val),)))]
 
+    def gen_gidx_assign(self, d):
+        """a[gix] = bump(2): the index is a bare non-const global that the right-hand
+        side changes; left-to-right evaluation stores at the old index."""
+        r = self.rnd
+        cands = self.vars_of(lambda v: is_arr(v.t) and not v.t[2] and v.init and v.t[1] in ('int', 'byte', 'bool')
+                             and v.length is not None and v.length >= 2)
+        if not cands or 'gix' not in self.gscope or any('gix' in sc for sc in self.scopes):
+            return None
+        n, v = r.choice(cands)
+        el = v.t[1]
+        callx = ('call', 'bump', (('int', 2),))
+        rhs = {'int': callx, 'byte': ('is', callx, 'byte'), 'bool': ('bin', '>', callx, ('int', 40))}[el]
+        tgt = ('idx', ('var', n), ('var', 'gix'))
+        if el != 'bool' and self.chance(0.4):
+            st = ('aug', r.choice('+-*'), tgt, callx if el == 'int' else ('int', 3))
+            if el == 'byte':
+                st = ('set', tgt, rhs)
+        else:
+            st = ('set', tgt, rhs)
+        return [st] + self.show(n, v) + [('expr', ('call', 'write', (('var', 'gix'),)))]
+
     def gen_assign(self, d):
         r = self.rnd
+        if self.feat('globals') and self.feat('calls') and self.chance(0.12):
+            out = self.gen_gidx_assign(d)
+            if out:
+                return out
         targets = self.vars_of(lambda v: not is_arr(v.t) and not v.const and not v.fixed and v.init)
         atargets = self.vars_of(lambda v: is_arr(v.t) and not v.t[2] and v.init
                                 and (v.length is None or v.length > 0))
@@ -971,10 +1010,17 @@ class ProgGen:
 
     def build(self):
         self.gen_globals()
+        self.extra_funcs = []
+        if self.feat('globals') and self.feat('calls') and self.feat('arrays'):
+            self.globals.append(('decl', 'int', 'gix', ('int', 0), False))
+            self.gscope['gix'] = V('int', fixed=True, is_global=True)
+            self.extra_funcs.append(('func', 'int', 'bump', (('int', 'm'),), ('block', (
+                ('set', ('var', 'gix'), ('bin', '%', ('bin', '+', ('var', 'gix'), ('int', 1)), ('var', 'm'))),
+                ('ret', ('bin', '+', ('var', 'gix'), ('int', 41)))))))
         for i in range(self.cfg['n_funcs']):
             self.gen_helper(i + 1)
         self.gen_entry()
-        funcs = self.dump_funcs() + self.funcs
+        funcs = self.dump_funcs() + self.extra_funcs + self.funcs
         if self.chance(0.5):
             # entry point may be declared anywhere
             funcs = [funcs[-1]] + funcs[:-1]
